@@ -430,6 +430,10 @@ fn history_oracles(h: &Hist) -> Vec<String> {
                 }
             }
         }
+        if m.what == "crash-restart" {
+            // the node is behind the tip it had purged for
+            linear = false;
+        }
         if let Some(w) = &m.dir_mismatch {
             f.push(format!("after step '{}' the block directory and blockchain.blocks disagree: {}", m.what, w));
         }
@@ -479,6 +483,10 @@ enum Action {
     Fork { depth: usize, blocks: Vec<(u64, bool, bool)>, invalid: bool },
     /// clean shutdown and restart through the real on_init; the journal continues
     Restart,
+    /// the process dies while the file written last is rewritten / still being written: the file is left
+    /// with the first `permille`/1000 of its bytes (journaled as a write of exactly those bytes), then the
+    /// node is restarted through the real on_init and the history goes on from what it came up with
+    CrashRestart { permille: u64 },
 }
 
 struct GenOpts {
@@ -489,11 +497,17 @@ struct GenOpts {
     restart_pct: u64,
     /// scripted history (None = random)
     script: Option<Vec<Action>>,
+    /// random histories may contain crash-restarts (never in histories compared with the Coq model:
+    /// its journal language has no partial write)
+    crash_restarts: bool,
 }
 
 fn random_action(rng: &mut Rng, o: &GenOpts, tip_id: u64, restarts: usize, n_blocks: usize) -> Action {
     let roll = rng.below(100);
     if roll < o.restart_pct && restarts < 2 && n_blocks > 2 {
+        if o.crash_restarts && rng.chance(1, 2) {
+            return Action::CrashRestart { permille: *rng.pick(&[0u64, 100, 390, 600, 999]) };
+        }
         return Action::Restart;
     }
     if roll < o.restart_pct + o.fork_pct && tip_id >= 2 {
@@ -557,14 +571,34 @@ async fn gen_history(rng: &mut Rng, o: &GenOpts) -> Hist {
             None => random_action(rng, o, h.blocks[tip_idx].block.id, restarts, h.blocks.len()),
         };
         step += 1;
+        let mut crashed = false;
+        if let Action::CrashRestart { permille } = &action {
+            // tear the file that was written last
+            let last = node.disk.lock().unwrap().journal.iter().rev().find_map(|op| match op {
+                DiskOp::Write(n, b) => Some((n.clone(), b.clone())),
+                _ => None,
+            });
+            if let Some((name, bytes)) = last {
+                let m = ((bytes.len() as u64 * permille) / 1000) as usize;
+                let io = MemIo::new(node.disk.clone());
+                let _ = io.write_value(&name, &bytes[..m.min(bytes.len().saturating_sub(1))]).await;
+                crashed = true;
+            }
+        }
         match action {
-            Action::Restart => {
+            Action::Restart | Action::CrashRestart { .. } => {
                 restarts += 1;
                 let disk = node.disk.clone();
                 match restart_real(&params, 1, disk).await {
                     Ok(n2) => {
                         let before = h.marks.last().and_then(|m| m.snap.as_ref()).map(|s| s.tip_hash);
                         let after = safe_snapshot(&n2).ok().map(|s| s.tip_hash);
+                        if crashed {
+                            // the node goes on from whatever it came up with
+                            node = n2;
+                            record(&mut h, &node, "crash-restart".to_string(), "Restart".to_string()).await;
+                            continue;
+                        }
                         if before != after {
                             // the restarted node is on another block: that is judged at the clean crash
                             // point at the end of the previous step; the history ends before this restart
@@ -734,6 +768,14 @@ fn scripts() -> Vec<(&'static str, u64, bool, Vec<Action>)> {
                 ext(300),
                 ext(300),
             ],
+        ),
+        // the tip file is torn by a crash, the node restarts, goes on, and is restarted cleanly later:
+        // nothing produced after the crash may be lost (the torn file must not survive the first restart)
+        (
+            "crash-restart-then-growth",
+            20,
+            false,
+            vec![ext(300), ext(300), ext(300), Action::CrashRestart { permille: 600 }, ext(300), ext(300), Action::Restart, ext(300)],
         ),
         // genesis period 3: restart far beyond the purge horizon, crash while the restart rewrites files
         (
@@ -1719,6 +1761,7 @@ async fn io_node_cases(h: &Hist, hi: &str) -> Vec<(String, Vec<String>)> {
     wipe_data();
     let mut node = Node::new(&h.params, 1);
     node.storage = Storage::new(real_handler());
+    let mut prev_len = 0usize;
     for m in &h.marks {
         let mut fails = vec![];
         if let Some(n) = m.what.strip_prefix("deliver ") {
@@ -1732,11 +1775,18 @@ async fn io_node_cases(h: &Hist, hi: &str) -> Vec<(String, Vec<String>)> {
                 fails.push(format!("step '{}' answered {} on the file-system node, {} on the memory node", m.what, class, m.class));
             }
         } else {
+            if m.what == "crash-restart" {
+                // the tear is the first journal operation of this step: a write of the torn bytes
+                if let Some(DiskOp::Write(name, bytes)) = h.journal.get(prev_len) {
+                    std::fs::write(name, bytes).expect("harness: tearing the real file");
+                }
+            }
             match restart_with(&h.params, 1, node.disk.clone(), true).await {
                 Ok(n2) => node = n2,
-                Err(e) => fails.push(format!("clean restart over the real file system panicked: {}", e)),
+                Err(e) => fails.push(format!("restart over the real file system panicked: {}", e)),
             }
         }
+        prev_len = m.journal_len;
         let expect = disk_after(&h.journal, m.journal_len, None);
         match settle_tree(&expect.files) {
             (Some(d), _) => fails.push(format!("after step '{}' the real directory differs from the journaled one: {}", m.what, d)),
@@ -1904,6 +1954,7 @@ fn main() {
             invalid_pct: 15,
             restart_pct: 6,
             script: script.as_ref().map(|x| x.3.clone()),
+            crash_restarts: !model,
         };
         let h = rt.block_on(gen_history(&mut rng, &o));
         if let Some(sc) = &script {
@@ -2197,10 +2248,10 @@ fn main() {
             results.push(("call-sequence", d, f));
         }
         for (name, gp, _, actions) in scripts() {
-            if !thorough && !["restart-after-purge", "three-siblings-above-purged-parent", "linear-with-restart"].contains(&name) {
+            if !thorough && !["restart-after-purge", "three-siblings-above-purged-parent", "linear-with-restart", "crash-restart-then-growth"].contains(&name) {
                 continue;
             }
-            let o = GenOpts { gp, steps: actions.len(), fork_pct: 0, invalid_pct: 0, restart_pct: 0, script: Some(actions) };
+            let o = GenOpts { gp, steps: actions.len(), fork_pct: 0, invalid_pct: 0, restart_pct: 0, script: Some(actions), crash_restarts: false };
             let h = rt.block_on(gen_history(&mut rng, &o));
             for (d, f) in rt.block_on(io_node_cases(&h, name)) {
                 results.push(("history-on-real-handler", d, f));
